@@ -773,6 +773,38 @@ def normalise(tree):
                     return ast.fix_missing_locations(loop)
             return n
     tree = Rep().visit(tree)
+
+    class Cond(ast.NodeTransformer):
+        """`t = a if c else b` (one target) -> `if c: t = a` / `else: t = b`; same for `return a if c else b`"""
+        def visit_Assign(self, n):
+            self.generic_visit(n)
+            if len(n.targets) == 1 and isinstance(n.value, ast.IfExp) and isinstance(n.targets[0], (ast.Name, ast.Subscript, ast.Attribute)):
+                import copy as _copy
+                a = ast.Assign(targets=[_copy.deepcopy(n.targets[0])], value=n.value.body, type_comment=None)
+                b = ast.Assign(targets=[_copy.deepcopy(n.targets[0])], value=n.value.orelse, type_comment=None)
+                new = ast.If(test=n.value.test, body=[a], orelse=[b])
+                for x in (a, b, new):
+                    ast.copy_location(x, n)
+                for x in ast.walk(new):
+                    if not hasattr(x, 'lineno'):
+                        ast.copy_location(x, n)
+                for attr in ('cy_type',):
+                    if hasattr(n, attr):
+                        setattr(a, attr, getattr(n, attr))
+                        setattr(b, attr, getattr(n, attr))
+                return self.visit(new) if isinstance(n.value.body, ast.IfExp) or isinstance(n.value.orelse, ast.IfExp) else new
+            return n
+
+        def visit_Return(self, n):
+            self.generic_visit(n)
+            if isinstance(n.value, ast.IfExp):
+                a = ast.copy_location(ast.Return(value=n.value.body), n)
+                b = ast.copy_location(ast.Return(value=n.value.orelse), n)
+                return ast.copy_location(ast.If(test=n.value.test, body=[a], orelse=[b]), n)
+            return n
+    tree = Cond().visit(tree)
+    ast.fix_missing_locations(tree)
+
     for fn in [x for x in ast.walk(tree) if isinstance(x, ast.FunctionDef)]:
         sites = {}
         for x in ast.walk(fn):
